@@ -46,11 +46,17 @@ MC_OBJ_KNOB = dict(module="ObjHist", name="objhist_knob_CleanLoad", expect="viol
                    what="sanity: if a load keeps what an earlier load left, TLC must find a use that sees it")
 
 
+MC_SCRATCH = dict(module="CallScratch", name="callscratch_design", constants=dict(NVals=3, MaxOps=6, CleanOnEntry=True, CleanOnEveryExit=False), invariants=("Pure",),
+                  what="calls are functions of their arguments although scratch objects outlive them: an accepted call sees nothing an earlier (refused) call left behind")
+MC_SCRATCH_KNOB = dict(module="CallScratch", name="callscratch_knob_Clean", expect="violate", constants=dict(NVals=3, MaxOps=6, CleanOnEntry=False, CleanOnEveryExit=False),
+                       invariants=("Pure",), what="sanity: with neither clean-on-entry nor clean-on-every-exit TLC must find a refused call followed by an accepted one that sees its leftovers")
+
+
 GEN_EAP_C12 = dict(module="Gen_Eap", name="eap12", constants=dict(Kinds='{"unknown", "eap"}'))
 
 
 def run_c03(ctx, C):
-    codec_common(ctx, C, [GEN_CODEC, gen_obj("msg", "C03"), gen_obj("eap", "C03"), gen_akahist_wire("C03")], [DRV_CODEC], mcs=[MC_OBJ, MC_OBJ_KNOB])
+    codec_common(ctx, C, [GEN_CODEC, gen_obj("msg", "C03"), gen_obj("eap", "C03"), gen_akahist_wire("C03")], [DRV_CODEC], mcs=[MC_OBJ, MC_OBJ_KNOB, MC_SCRATCH, MC_SCRATCH_KNOB])
     C.stage_s3(ctx)
 
 
@@ -63,7 +69,7 @@ GEN_LIBERTY = dict(module="Gen_Liberty", name="liberty")
 
 
 def run_c05(ctx, C):
-    codec_common(ctx, C, [GEN_CODEC, GEN_LIBERTY, gen_obj("msg", "C05")], [DRV_CODEC], mcs=[MC_OBJ, MC_OBJ_KNOB])
+    codec_common(ctx, C, [GEN_CODEC, GEN_LIBERTY, gen_obj("msg", "C05")], [DRV_CODEC], mcs=[MC_OBJ, MC_OBJ_KNOB, MC_SCRATCH, MC_SCRATCH_KNOB])
     C.stage_s3(ctx)
 
 
@@ -246,7 +252,7 @@ def gen_akahist_wire(prop):
 
 
 def run_c14(ctx, C):
-    codec_common(ctx, C, [GEN_EAP, GEN_AKAHIST, GEN_AKAHIST_W, gen_obj("eap", "C14")], [DRV_EAP], mcs=[MC_OBJ, MC_OBJ_KNOB], traces=("Trace_Codec",))
+    codec_common(ctx, C, [GEN_EAP, GEN_AKAHIST, GEN_AKAHIST_W, gen_obj("eap", "C14")], [DRV_EAP], mcs=[MC_OBJ, MC_OBJ_KNOB, MC_SCRATCH, MC_SCRATCH_KNOB], traces=("Trace_Codec",))
     C.stage_s3(ctx)
 
 
